@@ -123,12 +123,13 @@ class AbstractWalkModelDiGraph(ABC):
                 if edge not in self.edge_upper_bounds:
                     utils.logger.critical(f"{__name__}: Missing max_edge_repetition in max_edge_repetition_dict for edge {edge}")
                     raise ValueError(f"Missing max_edge_repetition for edge {edge}")
-        # We lower to 1 in edge_upper_bounds if the edge is not inside an SCC of self.G,
+        # We set to 1 in edge_upper_bounds if the edge is not inside an SCC of self.G,
         # because these edges cannot be traversed more than 1 times by any walk
-        # (a smaller bound given by the caller stays: as documented, 0 forbids the edge)
+        # (also when the given bound is smaller: the cyclic error models pass flow values as bounds, which are below 1 for
+        # float flows - with min(1, bound) their edge variables had the upper bound 0 and valid instances became infeasible)
         for edge in self.G.edges():
             if not self.G.is_scc_edge(edge[0], edge[1]):
-                self.edge_upper_bounds[edge] = min(1, self.edge_upper_bounds[edge])
+                self.edge_upper_bounds[edge] = 1
 
         self.subset_constraints = copy.deepcopy(subset_constraints)
         if self.subset_constraints is not None:
